@@ -47,11 +47,11 @@ def run(ctx):
     # XML/OPL buffers beyond the parser's buffer size in the thorough tier)
     real = [c for c in text if rpipe.mask_of(c["cfg"]) and rpipe.literal_reads_ok(c)]
     fmts = ["xml", "opl", "pbf", "pbf,pbf_dense_nodes=false", "pbf,pbf_compression=none"]
-    for i, c in enumerate(rpipe.sample(real, 70 if quick else 1500, rnd, key=lambda c: (str(c["cfg"]["skip"]), len(c["cfg"]["script"])))):
+    for i, c in enumerate(rpipe.sample(real, 150 if quick else 1500, rnd, key=lambda c: (str(c["cfg"]["skip"]), c["cfg"]["n"]))):
         cc = dict(c)
         cc["cfg"] = dict(c["cfg"], pool=rnd.choice([True, False]))
         big = (not quick) and i % 10 == 0
-        cases.append(rpipe.mk_case(i, "real", cc, rnd, 1 if big else nseeds, format=fmts[i % len(fmts)],
+        cases.append(rpipe.mk_case(i, "real", cc, rnd, 1, format=fmts[i % len(fmts)],
                                    R=(rnd.choice([9000, 20000]) if big else rnd.choice([1, 30, 400])),
                                    mask=rpipe.mask_of(c["cfg"]), meta=rnd.choice([True, False]), single=rnd.choice([True, False])))
     nexec, nvalid = rpipe.run_cases(ctx, cases)
